@@ -148,12 +148,26 @@ def run(chk):
     bpts = set()
     for c, v in tt:
         bpts |= boundary_points(c, tau)
+    where = loc(fs["toTime"])
     if len(bpts) != 1:
+        # more than one switch: decide what can be decided piece by piece before giving up.  A piece on which toTime is
+        # constant (a clamp) is neither strictly increasing nor invertible - a violation whatever the other pieces do.
+        pts = sorted(bpts, key=lambda x: float(sp.N(x, 60)))
+        ends = [-sp.oo] + pts + [sp.oo]
+        flat = []
+        for lo, hi in zip(ends[:-1], ends[1:]):
+            val = region_value(tt, tau, lo, hi)
+            if sp.simplify(sp.diff(val, tau)) == 0:
+                flat.append((lo, hi, val))
+        for lo, hi, val in flat:
+            chk.ob("C17-R3", "d toTime/d tau > 0 on (%s, %s)" % (sp.N(lo, 8), sp.N(hi, 8)), False, where, "toTime is the constant %s there: not strictly increasing, not injective, and backward no longer equals its derivative" % val,
+                   construct="QuadInvTimeMap/toTime/increasing/flat-piece")
+        if flat:
+            return
         raise Broken("toTime: expected exactly one switch point, got %s" % bpts)
     b = next(iter(bpts))
     left = region_value(tt, tau, -sp.oo, b)
     right = region_value(tt, tau, b, sp.oo)
-    where = loc(fs["toTime"])
     chk.ob("C17-R1", "toTime continuous at the switch tau=%s" % b, sp.simplify(left.subs(tau, b) - right.subs(tau, b)) == 0, where,
            "left %s -> %s, right %s -> %s" % (left, left.subs(tau, b), right, right.subs(tau, b)), construct="QuadInvTimeMap/toTime/C0")
     dl, dr = sp.diff(left, tau), sp.diff(right, tau)
